@@ -20,8 +20,14 @@ KANI['int_shift_small'] = {
         'vk_shift_small_shr_ref': {'kind': 'complete', 'domain': 'every DoubleWord x every usize shift count (TypedReprRef::RefSmall >> n)'},
     },
 }
+KANI['base_bittest'] = {
+    'package': 'dashu-base', 'target': 'base/src/bit.rs', 'file': 'base_bittest.rs',
+    'harnesses': {n: {'kind': 'complete', 'domain': 'every value of the type x every usize position'}
+                  for n in ['vk_base_bittest_i8', 'vk_base_bittest_i64', 'vk_base_bittest_i128', 'vk_base_bittest_u8',
+                            'vk_base_bittest_u128']},
+}
 PROP_UNITS = {
     'C18': {'kani': ['float_findings']},
-    'C09': {'kani': ['int_shift_small']},
+    'C09': {'kani': ['int_shift_small', 'base_bittest']},
     'C15': {'kani': ['int_shift_small']},
 }
